@@ -138,7 +138,7 @@ fn exec_case(d: &Data, cfg: &Cfg, full: bool) {
         mc::count("base_fit_only");
     } else if let Some((_, bytes2, _)) = fit_and_read(&x, &d.y, cfg, &site("fit"), &what) {
         if bytes2 != bytes {
-            mc::violation(site("deterministic"), format!("{}: two fits on the same rows give different serialised models", what()));
+            mc::violation_nondet(site("deterministic"), format!("{}: two fits on the same rows give different serialised models", what()));
         }
     }
 
@@ -441,9 +441,12 @@ impl Harness for C05 {
         }
 
         // ---- structured families (n = 8..150)
-        let (ns, ps): (&[usize], &[usize]) = if t { (&[8, 9, 10, 11, 12, 13, 16, 17, 23, 32, 40, 64, 100, 150], &[1, 2, 3, 4, 5, 6]) } else { (&[8, 11, 16, 23, 40], &[1, 2, 3, 6]) };
+        let (ns, ps): (&[usize], &[usize]) = if t { (&[8, 9, 10, 11, 12, 13, 16, 17, 23, 32, 40, 64, 100, 150], &[1, 2, 3, 4, 5, 6]) } else { (&[8, 11, 16, 23, 40, 150], &[1, 2, 3, 6]) };
         for &n in ns {
             for &p in ps {
+                if !t && n == 150 && p > 2 {
+                    continue; // quick tier: the large size (arg-sort beyond its small-partition regime) for p <= 2 only
+                }
                 for m in MODELS {
                     if t && n >= 64 {
                         // the coarse configuration grid, one job per depth setting
